@@ -153,9 +153,32 @@ def make_harness(shapes_, method_sets, prepare=None, builder=None):
 
         ns["generic_visit"] = generic
         # the visitor may be derived from another visitor class that was used before it
-        derived = e.pick(["plain", "derived-from-a-used-visitor"], "visitor_class")
+        # (how the visitor is defined: the last two ways on every fifth shape only, to bound the quick tier)
+        derived = e.pick(["plain", "derived-from-a-used-visitor"] + (["handlers-and-strict-set-on-the-object", "static-method-handlers"] if sno % 5 == 0 else []), "visitor_class")
         if derived == "plain":
             V = type("HarnessVisitor", (ASTTransformVisitor,), ns)
+        elif derived == "handlers-and-strict-set-on-the-object":
+            # a table-driven visitor: its __init__ installs the rules (and strictness) on the OBJECT
+            handlers = {k: v for k, v in ns.items() if k.startswith("visit_")}
+
+            def _init(self, _h=handlers, _s=strict):
+                self.strict = _s
+                for name, fn in _h.items():
+                    setattr(self, name, fn.__get__(self, type(self)))
+
+            V = type("HarnessVisitor", (ASTTransformVisitor,), {"generic_visit": generic, "__init__": _init})
+        elif derived == "static-method-handlers":
+            # handlers declared as static methods: they receive the node only
+            holder: dict[str, Any] = {}
+            sns: dict[str, Any] = {"strict": strict, "generic_visit": generic}
+            for name, fn in ns.items():
+                if name.startswith("visit_"):
+                    sns[name] = staticmethod(lambda node, _f=fn: _f(holder["visitor"], node))
+            V0 = type("HarnessVisitor", (ASTTransformVisitor,), sns)
+
+            def V():  # noqa: N802
+                holder["visitor"] = V0()
+                return holder["visitor"]
         else:
             def base_method(self, node):
                 return node
